@@ -388,6 +388,81 @@ pub fn run(rep: &mut StageReport, tier: &str, seed: u64) {
     }
     rep.count("codec_and_composition_cases", n_codec);
 
+    // ---- a long-lived decompressor instance (what a subscriber holds for the life of its stream) must not
+    // carry anything over from a frame it rejected or mangled into the next, intact frame
+    {
+        let n_reuse: u64 = if thorough { 40_000 } else { 4_000 };
+        let pairs = pairs.clone();
+        crate::common::par_cases(rep, 16, n_reuse, seed ^ 0x14C, move |i, rng, rep| {
+            rep.evaluations += 1;
+            let mut pi = rng.usize(pairs.len());
+            if is_slow(&pairs[pi].2) {
+                pi = rng.usize(20);
+            }
+            let pair = &pairs[pi];
+            let c1 = rng.range(2, 6) as u32;
+            let n1 = rng.below(9000) as usize + 40;
+            let x1 = payload_class(rng, c1, n1);
+            let c2 = rng.range(2, 6) as u32;
+            let n2 = rng.below(3000) as usize + 1;
+            let x2 = payload_class(rng, c2, n2);
+            let mut bad = match pair.0.compress(Bytes::from(x1.clone())) {
+                Ok(b) => b.to_vec(),
+                Err(_) => return,
+            };
+            // damage the first frame: truncate, flip a late byte (checksum / trailer), or append garbage
+            let how = match rng.below(4) {
+                0 => {
+                    let cut = rng.usize(bad.len().max(1));
+                    bad.truncate(cut);
+                    "truncated"
+                }
+                1 => {
+                    let l = bad.len();
+                    if l > 0 {
+                        let p = l - 1 - rng.usize(l.min(8));
+                        bad[p] ^= 0x5a;
+                    }
+                    "trailer byte flipped"
+                }
+                2 => {
+                    if !bad.is_empty() {
+                        let p = rng.usize(bad.len());
+                        bad[p] ^= 1 << rng.below(8);
+                    }
+                    "bit flipped"
+                }
+                _ => {
+                    bad.extend(rng.rbytes(20));
+                    "garbage appended"
+                }
+            };
+            let good = match pair.0.compress(Bytes::from(x2.clone())) {
+                Ok(b) => b,
+                Err(_) => return,
+            };
+            let r = catch_unwind(AssertUnwindSafe(|| {
+                let first = pair.1.decompress(Bytes::from(bad.clone()));
+                let second = pair.1.decompress(good.clone());
+                (first.is_ok(), second)
+            }));
+            match r {
+                Err(_) => report(rep, Viol(format!("panic/reuse/{}", pair.2.split('/').next().unwrap()), format!("{} panicked on a damaged frame ({})", pair.2, how)), i, json!({"algorithm": pair.2, "damage": how})),
+                Ok((_, Ok(out))) if out[..] == x2[..] => {
+                    rep.distinct.insert(crate::common::mix(pi as u64 ^ 0x7e05e, crate::common::fnv(&bad) ^ crate::common::fnv(&x2)));
+                }
+                Ok((first_ok, Ok(out))) => report(
+                    rep,
+                    Viol(format!("stale-state-after-bad-frame/{}", pair.2.split('/').next().unwrap()), format!("{}: after a {} frame ({}), the same decompressor instance returned {} bytes for an intact frame of {} bytes ({} …)", pair.2, how, if first_ok { "returned Ok" } else { "rejected" }, out.len(), x2.len(), hex_trunc(&out, 16))),
+                    i,
+                    json!({"algorithm": pair.2, "damage": how}),
+                ),
+                Ok((_, Err(e))) => report(rep, Viol(format!("intact-frame-rejected-after-bad-frame/{}", pair.2.split('/').next().unwrap()), format!("{}: after a {} frame the same instance rejected an intact frame: {}", pair.2, how, e)), i, json!({"algorithm": pair.2, "damage": how})),
+            }
+        });
+        rep.count("instance_reuse_after_damaged_frame_cases", n_reuse);
+    }
+
     // ---- invalid UTF-8 must be an error, never a value ------------------------------------------------
     let mut bad = bad_utf8();
     let base = bad.clone();
